@@ -84,7 +84,7 @@ class Sink(Node):
 
         
 
-        self.in_edge_events = [edge.inbuiltstore.reserve_get() for edge in self.in_edges]
+        self.in_edge_events = [edge.reserve_get() for edge in self.in_edges]
         
         triggered_in_edge_events = self.env.any_of(self.in_edge_events)
         yield triggered_in_edge_events  # Wait for any in_edge to be available
@@ -95,6 +95,7 @@ class Sink(Node):
         if self.chosen_event is None:
             raise ValueError(f"{self.id} - No in_edge available for processing!")
         
+        chosen_edge = self.in_edges[self.in_edge_events.index(self.chosen_event)]
         self.in_edge_events.remove(self.chosen_event)  # Remove the chosen event from the list
         #cancelling already triggered out_edge events
         for event in self.in_edge_events:
@@ -103,7 +104,7 @@ class Sink(Node):
         
         
         
-        item = self.chosen_event.resourcename.get(self.chosen_event)  # Get the item from the chosen in_edge
+        item = chosen_edge.get(self.chosen_event)  # Get the item from the chosen in_edge
         if isinstance(item, simpy.events.Process):
             self.item_in_process = item
             yield self.item_in_process # Wait for the item to be available
